@@ -229,3 +229,100 @@ def singleton_differential(nthreads, n, seed=0):
       bad.append({"schedule": k, "why": "model: %d distinct results, %d constructed; real: %d distinct, %d constructed" % (
         model_distinct, st["klass.next"] - 1, real_distinct, len(real.made))})
   return {"schedules": n, "visible_operations": ops, "disagreements": bad}
+
+
+# ---- thread-safe attribute scenario (C27) ---------------------------------------------------------------------------
+class RealTSA:
+  def __init__(self, sc, sysm):
+    import miros.thread_safe_attributes as tsmod
+    from vf.e2 import tsa_statements as S
+    vis, _, _ = R.visibility_from(sysm)
+    self.d = d = R.Director(vis)
+
+    class Thing(metaclass=tsmod.MetaThreadSafeAttributes):
+      _attributes = ["x"]
+    self.o = Thing()
+    desc = Thing.__dict__["x"]
+    for k in sc.info["lock_attrs"]:
+      setattr(desc, k, R.LockProxy(d, "desc.%s" % k))
+    for a in sc.info["shared_attrs"]:
+      if not hasattr(desc, a):
+        setattr(desc, a, None)
+      R.shared_attr(d, desc, a, "desc." + a)
+    self.desc = desc
+    self.o.__dict__ = R.make_dict(d, "vals")
+    self.errors = {}
+    self.reads = {}
+    self.bodies = {}
+    for t, kind in enumerate(sc.info["kinds"]):
+      self.bodies[t] = self.body(t, getattr(S, "%s_%d" % (kind, t)))
+
+  def body(self, t, fn):
+    def run():
+      try:
+        self.reads[t] = fn(self.o)
+      except BaseException as ex:      # noqa: the failure is the observation
+        self.errors[t] = "%s: %s" % (type(ex).__name__, ex)
+    return run
+
+  def observe(self):
+    vals = dict.copy(self.o.__dict__)
+    lock_free = {}
+    for k in [a for a in vars(self.desc) if isinstance(vars(self.desc)[a], R.LockProxy)]:
+      lp = vars(self.desc)[k]
+      got = [False]
+
+      def probe():
+        got[0] = lp.real.acquire(False)
+        if got[0]:
+          lp.real.release()
+      th = threading.Thread(target=probe)
+      th.start()
+      th.join()
+      lock_free[k] = got[0]
+    return {"errors": {str(k): v for k, v in self.errors.items()}, "value": (list(vals.values()) or [0])[0], "lock_acquirable_by_another_thread": lock_free,
+            "finished": sorted(self.d.finished)}
+
+
+def tsa_replay(sc, sysm, res, states, infos, loop):
+  real = RealTSA(sc, sysm)
+  ok, detail, threads = R.run_threads(real.d, real.bodies, triples(infos))
+  time.sleep(0.05)
+  obs = real.observe()
+  real.d.release_all()
+  for t in threads.values():
+    t.join(timeout=0.5)
+  return {"matched": ok, "detail": detail, "real": obs}
+
+
+def tsa_differential(kinds, n, seed=0):
+  from vf.e2.check import build
+  rnd = random.Random(seed)
+  bad = []
+  ops = 0
+  for k in range(n):
+    sc, sysm = build("tsa", dict(kinds=kinds))
+    st = sysm.initial()
+    infos = []
+    for _ in range(80):
+      en = sysm.enabled_concrete(st)
+      if not en:
+        break
+      st, info = sysm.step_concrete(st, rnd.choice(en))
+      infos.append(info)
+    real = RealTSA(sc, sysm)
+    ok, detail, threads = R.run_threads(real.d, real.bodies, triples(infos))
+    time.sleep(0.02)
+    obs = real.observe()
+    real.d.release_all()
+    for t in threads.values():
+      t.join(timeout=0.5)
+    ops += len(triples(infos))
+    model_value = 0 if st["vals.size"] == 0 else st["vals.v0"]
+    model_crashed = sorted(p.tid for p in sysm.programs if sysm.prog(p.tid).nodes[st["pc.%d" % p.tid]].kind.startswith("crashed")
+                           ) if all(isinstance(sysm.prog(p.tid).nodes[st["pc.%d" % p.tid]], ir.End) for p in sysm.programs) else None
+    if not ok:
+      bad.append({"schedule": k, "why": detail})
+    elif obs["value"] != model_value or (model_crashed is not None and sorted(int(x) for x in obs["errors"]) != model_crashed):
+      bad.append({"schedule": k, "why": "model value %s crashed %s; real %s" % (model_value, model_crashed, obs)})
+  return {"schedules": n, "visible_operations": ops, "disagreements": bad}
